@@ -70,7 +70,7 @@ pub enum StateObs<'a> {
 pub fn own_property(comp: &str) -> &'static str {
     match comp {
         "varint" | "pn" | "frame" | "header" | "tparams" => "C10",
-        "dedup" => "C04",
+        "dedup" | "keyupd" => "C04",
         "sbuf" | "asm" => "C01",
         "cidq" | "cidstate" | "ackfreq" | "ackscan" | "pathresp" | "pendingacks" | "rxpn" => "C03",
         "token" | "bloomlog" | "tokencache" | "cidecho" => "C14",
@@ -89,6 +89,7 @@ pub fn tracker(comp: &str) -> Option<Box<dyn Tracker>> {
         .or_else(|| crate::opclass_wire::tracker(comp))
         .or_else(|| crate::opclass_endpoint::tracker(comp))
         .or_else(|| crate::opclass_recovery::tracker(comp))
+        .or_else(|| crate::opclass_keyupd::tracker(comp))
 }
 
 /// All trackers of the current case (one per component addressed).
